@@ -38,6 +38,7 @@ import (
 //   ui    Evaluator.EvaluateString (parses) from several goroutines holding the read lock
 
 var c40featureIDs = [c40nFeatures]b6.FeatureID{fPointID(1), fPathID(1), fPointID(100), fPointID(101)}
+
 // The two tracked tag keys are both plain or both searchable within one script. (Mixing them on a
 // base feature runs into a sequential defect of the overlay world that belongs to C12: adding a
 // searchable tag copies the base feature into the overlay and drops its earlier plain-tag edits.)
